@@ -156,11 +156,22 @@ def make_run_redup(shapes_, share):
                      z3.And(*[a != b for a, b in
                               itertools.combinations(idz, 2)])
                      if len(idz) > 1 else True)
-        # nodes that were unique (and all of whose descendants were) stay
-        shared_objs = {id(shared['obj'])} if share else set()
+        # nodes that occur at one position only (and all of whose
+        # descendants do) stay the objects they were
+        occ = {}
+
+        def count(o):
+            occ[id(o)] = occ.get(id(o), 0) + 1
+            d = o.attrs['data']
+            if not isinstance(d, (str, SStr)):
+                for c in d:
+                    count(c)
+
+        for o in forest:
+            count(o)
 
         def has_shared(o):
-            if id(o) in shared_objs:
+            if occ[id(o)] > 1:
                 return True
             d = o.attrs['data']
             return (not isinstance(d, (str, SStr))) and any(
